@@ -230,6 +230,32 @@ func c20Rules(p *core.Prog, r *core.Run) {
 		r.Check("C20.WHO", "updateRecord:ids", okIDs, p.InstrPos(call.Instr), "zone id, record id and data passed to the write are those of the snapshot entry for this iteration's own (Zone, Name)")
 	}
 
+	// the write function reports success only after it has sent the request:
+	// no way out with a nil error goes round the PATCH (a "nothing to do"
+	// shortcut decided on what an earlier call remembered reports a write that
+	// did not happen)
+	{
+		var do []ssa.Instruction
+		for _, s := range callSites(p, []*ssa.Function{upd}, `.*\.Do$`) {
+			do = append(do, s.Instr)
+		}
+		nOK := 0
+		for i, ret := range core.Returns(upd) {
+			if !lastResultNil(ret) {
+				continue
+			}
+			nOK++
+			sent := false
+			for _, d := range do {
+				if d.Block() == ret.Block() || d.Block().Dominates(ret.Block()) {
+					sent = true
+				}
+			}
+			r.Check("C20.WHO", fmt.Sprintf("updateRecord:success-after-request#%d", i), sent, p.InstrPos(ret), "updateRecord returns nil only on a way that has passed its HTTP request")
+		}
+		r.Check("C20.WHO", "updateRecord:success-returns", len(do) == 1 && nOK >= 1, p.Pos(upd.Pos()), "%d request site(s) and %d success return(s) in updateRecord", len(do), nOK)
+	}
+
 	// --- ONLY
 	nData := 0
 	for _, b := range pub.Blocks {
@@ -619,6 +645,16 @@ func c20Pages(p *core.Prog, r *core.Run, gzd *ssa.Function) {
 			sent = true
 		}
 	}
+	// the listing asks for HTTPS records only: the snapshot is keyed by name, so
+	// a record of another type at a requested name would stand in for (and be
+	// written instead of) the HTTPS record
+	typed := false
+	for _, s := range callSites(p, []*ssa.Function{gzd}, `\(net/url\.Values\)\.(Set|Add)`) {
+		if len(s.X.Args) == 3 && s.X.Args[1].Name == `"type"` && s.X.Args[2].Name == `"HTTPS"` {
+			typed = true
+		}
+	}
+	r.Check("C20.ONLY", "listing:type-HTTPS", typed, p.Pos(gzd.Pos()), "the record listing is restricted to type=HTTPS by the request itself (%v)", typed)
 	r.Check("C20.PAGES", "page-counter", start && step && sent, p.InstrPos(page), "the page counter starts at 1 (%v), advances by 1 (%v) and is sent as the 'page' query parameter (%v)", start, step, sent)
 	isInfo := func(e *core.Expr, name string) bool {
 		return e.Op == "field" && e.Name == name && e.Args[0].Op == "field" && e.Args[0].Name == "ResultInfo"
